@@ -421,6 +421,9 @@ def constructor(chk):
         return f.qual == "cobald.utility:enforce"
 
     it = Interp(prog, init, inline=inline, assert_raises=True)
+    # a NaN parameter compares unordered ("u") with everything: `enforce(minimum <= maximum)` rejects it, the look-alike
+    # `if minimum > maximum: raise` accepts it -- and a NaN limit limits nothing
+    it.all_rel = frozenset("<=>u")
     outs = it.run()
     chk.count(len(outs))
     P = lambda n: ("sym", n)  # noqa: E731
@@ -441,7 +444,7 @@ def constructor(chk):
             s = it.get_rel(a, b, o.path)
             if not s <= allowed:
                 extra = "".join(sorted(s - allowed))
-                chk.bad(rule, name, "the constructor accepts %s %s %s (required: %s)" % (show(a), "/".join(extra), show(b), label), node=init.node, stmt=label, input="ordering %s%s%s" % (show(a), extra, show(b)))
+                chk.bad(rule, name, "the constructor accepts %s %s %s (required: %s)%s" % (show(a), "/".join(extra).replace("u", "unordered with"), show(b), label, " -- a NaN parameter is accepted: the comparison is written in its negated form, which is False for NaN as well" if extra == "u" else ""), node=init.node, stmt=label, input="ordering %s%s%s" % (show(a), extra, show(b)))
                 ok = False
                 break
     # rejected combinations must raise (not be clamped silently) -- at least one raising path per constraint
